@@ -30,7 +30,7 @@ Added by slice d16 (audit of C16): the `Text('f', -1)` route under hypotheses on
 what the codec KEEPS of a refinement (`RfnKept` inside `Approx` at every unknown leaf,
 `unknown_refinement_kept_partial`); `Marshal` is total on well-shaped conforming values and a mark
 at any depth is an ERROR (`marshal_total_partial`, `marked_nested_rejected_err`); the
-`convert.Convert` path of `Marshal` (`marshalC…`, with `MarkedRejectedOnConversionPath` false: a
+`convert.Convert` path of `Marshal` (`marshalC…`, with `marked_rejected_on_conversion_path` — once false: a
 recorded finding); /repo bb6ac26 (`known_length_list_refused`).
 
 The full-strength statement `RoundtripCovers` is FALSE of the code as it exists;
@@ -316,46 +316,30 @@ theorem roundtrip_covers_sets_partial (E : Ext) (hE : E.setOf = setOfDedup) (v :
 
 /-! ### Marks on the conversion path -/
 
-/-- FULL statement (false): a value that contains a mark ANYWHERE is never accepted by `Marshal`,
-also when its type does not conform to the constraint (`marshalC`: `convert.Convert` first). -/
-def MarkedRejectedOnConversionPath : Prop :=
-  ∀ (E : Ext) (fuel : Nat) (v : Value) (t : Ty), v.containsMarked = true →
-    ∀ it, marshalC E Convert.driverEnv fuel v t ≠ .ok it
+/-- **a value that contains a mark ANYWHERE is never accepted by `Marshal`**, also when its type does
+not conform to the constraint (`marshalC`: the mark test comes before `convert.Convert`) — for every
+library environment, conversion environment, fuel, value and constraint.  This statement was FALSE of
+the code as found (the conversion dropped the marked part and `Marshal` accepted the rest: witness
+below); the defect was repaired in /repo (Marshal of cty/msgpack and cty/json test `ContainsMarked`
+first) and the model follows. -/
+theorem marked_rejected_on_conversion_path (E : Ext) (C : Convert.Env) (fuel : Nat) (v : Value) (t : Ty)
+    (hm : v.containsMarked = true) : ∃ e, marshalC E C fuel v t = .err e :=
+  ⟨_, marshalC_marked_err E C fuel v t hm⟩
 
 /-- `{zz = {b = false (marked), zz = true}}`, an object whose only attribute holds a map with a marked member -/
 def markDroppedWitness : Value :=
   ⟨.object ["zz"] [.map .bool] [false], .smap ["zz"] [.smap ["b", "zz"] [.marked ["m1"] (.b false), .b true]]⟩
 
-/-- … marshalled against the EMPTY object type: the type does not conform, `convert.Convert` drops the
-attribute the target type does not have — and the mark with it — and `Marshal` writes an empty map
-(replayed on /repo: `msgpack.Marshal(cty.ObjectVal(…"zz": cty.MapVal(… "b": cty.False.Mark("m1") …)),
-cty.EmptyObject)` answers the byte 0x80 and no error; finding `marked-rejected /
-accepted:mark-only-in-part-dropped-by-conversion-to-constraint`). -/
-theorem marked_rejected_conversion_counterexample : ¬ MarkedRejectedOnConversionPath := by
-  intro h
-  have hc : (match marshalC E0 Convert.driverEnv 64 markDroppedWitness (.object [] [] []) with
-             | .ok _ => true | _ => false) = true := by decide +kernel
-  cases hm : marshalC E0 Convert.driverEnv 64 markDroppedWitness (.object [] [] []) with
-  | ok it => exact h E0 64 markDroppedWitness _ (by decide) it hm
-  | err e => rw [hm] at hc; simp at hc
-  | panic w => rw [hm] at hc; simp at hc
-  | unmodelled => rw [hm] at hc; simp at hc
+/-- the former counterexample — marshalled against the EMPTY object type, where `convert.Convert`
+drops the attribute that the target type does not have, and the mark with it — is refused -/
+theorem marked_rejected_conversion_former_counterexample :
+    (match marshalC E0 Convert.driverEnv 64 markDroppedWitness (.object [] [] []) with
+     | .err _ => true | _ => false) = true ∧ markDroppedWitness.containsMarked = true := by decide +kernel
 
-/-- The strongest true statement: on the conversion path a mark that SURVIVES the conversion (at any
-depth of the converted value) makes `Marshal` refuse. -/
-theorem marked_rejected_conversion_partial (E : Ext) (C : Convert.Env) (fuel : Nat) (v v' : Value) (t : Ty)
-    (hn : Ty.conformErrs t v.ty ≠ 0) (hcv : Convert.convert C fuel v t = .ok v')
-    (hconf : Ty.conformErrs t v'.ty = 0) (hm : v'.containsMarked = true) (it : Item) :
-    marshalC E C fuel v t ≠ .ok it := by
-  intro h
-  have h1 : marshalC E C fuel v t = marshalV E v' t := by
-    unfold marshalC; rw [if_pos hn, hcv]
-  have h2 : marshalC E C fuel v' t = marshalV E v' t := by
-    unfold marshalC; simp [hconf]
-  rw [h1, ← h2, marshalC_conforming E C fuel v' t hconf] at h
-  have := marshal_ok_unmarked E v' t it h
-  rw [hm] at this
-  exact absurd this (by simp)
+/-- in particular a mark that survives the conversion makes `Marshal` refuse (the older, weaker statement) -/
+theorem marked_rejected_conversion_partial (E : Ext) (C : Convert.Env) (fuel : Nat) (v : Value) (t : Ty)
+    (hm : v.containsMarked = true) (it : Item) : marshalC E C fuel v t ≠ .ok it := by
+  rw [marshalC_marked_err E C fuel v t hm]; intro h; cases h
 
 /-- For a wholly known value the result is wholly equal: `RawEq` holds part for part
 (numbers: numerically identical when whole or an exact float64, Equal otherwise). -/
@@ -468,8 +452,8 @@ theorem marshal_total_partial (E : Ext) (hs : SafeTotal E) (v : Value) (t : Ty) 
 /-- `Msgpack.marshalC` is `Marshal` WITH its non-conforming path (`convert.Convert` first — the model
 of property C08, in any environment `C`); on a conforming value it is `marshal`. -/
 theorem marshalC_conforming_eq (E : Ext) (C : Convert.Env) (fuel : Nat) (v : Value) (t : Ty)
-    (h : Ty.conformErrs t v.ty = 0) : marshalC E C fuel v t = marshal E v t :=
-  marshalC_conforming E C fuel v t h
+    (h : Ty.conformErrs t v.ty = 0) (hm : v.containsMarked = false) : marshalC E C fuel v t = marshal E v t :=
+  marshalC_conforming E C fuel v t h hm
 
 /-- `Marshal` adds no panic of its own on the conversion path: `marshalC` panics only where
 `convert.Convert` does … -/
